@@ -431,6 +431,12 @@ func RunC02(t *testing.T, spec kernel.Spec) *kernel.Outcome {
 			return
 		}
 		ks := rp.NewRemoteKeySet(w.Net.Client("rp", nil, false), w.Issuer+"/keys")
+		if !strings.Contains(c.shape, "nokid") && tape.Sub("cfg-skip").Bool(1, 2) {
+			// the relying party's key set with the SkipRemoteCheck option (it concerns kid-less tokens against kid-less
+			// keys only; with named keys nothing about what is believed may change)
+			ks = rp.NewRemoteKeySet(w.Net.Client("rp", nil, false), w.Issuer+"/keys", rp.SkipRemoteCheck())
+			o.Probe("rp-key-set-with-skip-remote-check")
+		}
 		idv := rp.NewIDTokenVerifier(w.Issuer, client, ks, rp.WithSupportedSigningAlgorithms(string(w.SigAlg)), rp.WithNonce(func(context.Context) string { return "nonce-1" }))
 		ck := w.ClientKeys["jwt"]
 		now := time.Now()
@@ -581,6 +587,9 @@ func RunC02(t *testing.T, spec kernel.Spec) *kernel.Outcome {
 				c.step = id
 				o.StepIDs = append(o.StepIDs, id)
 				accepted, _, _ := surfaces[0].deliver(nokid)
+				if again, _, _ := surfaces[0].deliver(nokid); again { // once more, now that the key set has just fetched
+					accepted = true
+				}
 				acc2, _, _ := surfaces[2].deliver(nokid)
 				o.Probe("kidless-probes")
 				if c.shape == "two-same-type" && (accepted || acc2) {
